@@ -1105,7 +1105,53 @@ fn converted_text_cases(opts: &MatchOpts, rep: &mut Report) {
     }
 }
 
+/// One haystack of the largest documented length, 2^32 - 1 bytes (held as bytes; the matches sit at the very beginning so that
+/// every entry point is done after a few vectorised scans): every entry point returns what the same text cut to 64 bytes gives.
+fn max_length_haystack(opts: &MatchOpts, props: &Props, rep: &mut Report) {
+    let n = u32::MAX as usize;
+    let mut bytes = vec![b'x'; n];
+    bytes[0] = b'a';
+    bytes[1] = b'b';
+    bytes[3] = b'A';
+    let mut matcher = initial_matcher(opts.seed, opts.shard, 11);
+    for (ci, needle) in [(1usize, "ab"), (3, "ba")] {
+        let cfg = RCfg::from_index(ci % RCfg::COUNT);
+        matcher.config = cfg.real();
+        let nt = Text::new(needle.chars().collect());
+        for algo in ALGOS {
+            rep.count("c01.max-length-haystack-calls");
+            let (mut i1, mut i2) = (Vec::new(), Vec::new());
+            let r = caught(|| {
+                let long = call(&mut matcher, algo, nucleo_matcher::Utf32Str::Ascii(&bytes), nt.view(true), Some(&mut i1));
+                let short = call(&mut matcher, algo, nucleo_matcher::Utf32Str::Ascii(&bytes[..64]), nt.view(true), Some(&mut i2));
+                (long, short)
+            });
+            // postfix and exact look at the other end of the text; there only the decision and the witness are compared
+            let anchored_at_end = matches!(algo, Algo::Postfix | Algo::Exact);
+            let bad = match &r {
+                Ok((a, b)) if anchored_at_end => a.is_some() != b.is_some(),
+                Ok((a, b)) => a != b || i1 != i2,
+                Err(_) => true,
+            };
+            if bad {
+                let kind = if r.is_err() { "panic" } else { "result-differs-from-the-same-text-cut-short" };
+                rep.violation(
+                    if props.c01 { "C01" } else { "C10" },
+                    kind,
+                    format!("max-length|{}", algo.name()),
+                    jobj! {"haystack" => "a b x A x x ... (4294967295 bytes)", "needle" => needle, "config" => format!("{cfg:?}"), "result (full length, first 64 bytes)" => format!("{r:?}"),
+                           "case_id" => format!("{}:{}:maxlen", opts.seed, opts.shard)},
+                );
+                return;
+            }
+        }
+    }
+}
+
 pub fn run(opts: &MatchOpts, props: &Props, pools: &Pools, rep: &mut Report) {
+    if (props.c01 || props.c10) && opts.replay.is_none() && !opts.long_only && opts.shard == 11 && opts.cases >= 1000 {
+        max_length_haystack(opts, props, rep);
+    }
     if props.c03 && opts.replay.is_none() && !opts.long_only && opts.shard % 4 == 1 {
         vertical_tab_cases(opts, rep);
     }
